@@ -87,10 +87,24 @@ func c01Command(rc *RunCtx, t *simrt.Tape) {
 	}
 	gv, ev := []string{}, []string{}
 	for _, g := range got {
-		gv = append(gv, viewOfParsed(g, format))
+		if format <= fmFastq {
+			// identifier, nucleotides, qualities, definition and annotations: the whole record,
+			// whatever the transport (the Go parsers and the C reader of stdin must agree)
+			gv = append(gv, irecOfParsed(g).canon())
+		} else {
+			gv = append(gv, viewOfParsed(g, format))
+		}
 	}
 	for _, r := range fc.Recs {
-		ev = append(ev, viewOfRec(r))
+		if format <= fmFastq {
+			e := r
+			if !fc.Shape.JSONHead {
+				e.Annot = nil
+			}
+			ev = append(ev, irecOf(e).canon())
+		} else {
+			ev = append(ev, viewOfRec(r))
+		}
 	}
 	if !equalStrings(gv, ev) {
 		rc.Violate(class+"/records-differ", "obiconvert (%s, %s, %s): %s\nfile: %q", codecNames[codec], transport, p, firstDiff(gv, ev), clip(string(fc.Text), 500))
